@@ -386,6 +386,7 @@ func rulesC13(c *Ctx) {
 	c.Explain = append(c.Explain,
 		"C13 (sync applies exactly the announced transition) — decided: in commitWithHooks the pre-commit hook is called (when non-nil) and its success edge taken before PutWriteLog/RemoveNodes/batch.Commit on every path; CommitKnown passes a hook whose only success path is equality of the computed root hash with the expected one; RootCache.Apply is the only caller of ApplyWriteLog in the storage layer, commits the tree it applied the log to only through CommitKnown(expectedNewRoot) and returns success only through HasRoot(expectedNewRoot) or CommitKnown's success edge; the mismatch sentinel is translated, not swallowed.",
 		"NOT decided: that the write log served by the database for two consecutive roots reproduces the second root (coalescing, revival from the DB) — value-dependent.")
+	c13Hops(c)
 	const rule = "C13.commitknown"
 	const cwh = "storage/mkvs.(*tree).commitWithHooks"
 	if fn := c.needFn(rule, cwh); fn != nil {
@@ -598,4 +599,111 @@ func c12KeyFormats(c *Ctx) {
 		}
 	}
 	c.Floor("C12.keyfmt", n, 10, "key formats of the node databases")
+}
+
+// c13Hops: the badger backend finds a multi-hop write log path by searching
+// from the end root towards the start root; the hops must be replayed in the
+// opposite order (start towards end), otherwise a key written in two hops ends
+// with the older value (F10).
+func c13Hops(c *Ctx) {
+	const rule = "C13.hops"
+	search := c.needFn(rule, "storage/mkvs/db/badger.(*badgerNodeDB).GetWriteLog$2")
+	if search == nil {
+		return
+	}
+	// search direction: the next item's end root is the decoded START root of the stored log key
+	towardsStart := false
+	appendsAtEnd, prepends := false, false
+	for _, b := range search.Blocks {
+		for _, in := range b.Instrs {
+			st, ok := in.(*ssa.Store)
+			if !ok {
+				continue
+			}
+			fa, ok := st.Addr.(*ssa.FieldAddr)
+			if !ok || !strings.HasSuffix(fieldKey(fa.X.Type(), fa.Field), "wlItem.endRootHash") && !strings.HasSuffix(fieldKey(fa.X.Type(), fa.Field), "wlItem.logKeys") {
+				continue
+			}
+			switch fieldName(fa.X.Type(), fa.Field) {
+			case "endRootHash":
+				// value loaded from the alloc passed as the third decode target
+				if ld, ok := st.Val.(*ssa.UnOp); ok {
+					if al, ok := ld.X.(*ssa.Alloc); ok {
+						for _, call := range findCalls(search, "common/keyformat.(*KeyFormat).Decode") {
+							els := variadicElems(allArgs(call)[len(allArgs(call))-1])
+							if len(els) == 3 {
+								if mi, ok := els[2].(*ssa.MakeInterface); ok && mi.X == ssa.Value(al) {
+									towardsStart = true
+								}
+							}
+						}
+					}
+				}
+			case "logKeys":
+				if ap, ok := st.Val.(*ssa.Call); ok && calleeNameCommon(&ap.Call) == "builtin.append" {
+					if strings.Contains(vstr(ap.Call.Args[0]), "curItem.logKeys") {
+						appendsAtEnd = true
+					} else if strings.Contains(vstr(ap.Call.Args[len(ap.Call.Args)-1]), "curItem.logKeys") {
+						prepends = true
+					}
+				}
+			}
+		}
+	}
+	c.Check(towardsStart && (appendsAtEnd != prepends), rule, fname(search)+":search direction and collection order recognised", c.P.Pos(search.Pos()), "the search walks from the end root towards the start root and collects hop keys by "+map[bool]string{true: "appending", false: "prepending"}[appendsAtEnd], "the structure of the multi-hop write log search is not recognised (direction or collection order)")
+	if !towardsStart || appendsAtEnd == prepends {
+		return
+	}
+	// replay direction: the stores to the captured index variable of the getter closure
+	getter := c.needFn(rule, "storage/mkvs/db/badger.(*badgerNodeDB).GetWriteLog$2$1")
+	if getter == nil {
+		return
+	}
+	dec, inc := false, false
+	for _, b := range getter.Blocks {
+		for _, in := range b.Instrs {
+			st, ok := in.(*ssa.Store)
+			if !ok {
+				continue
+			}
+			fv, ok := st.Addr.(*ssa.FreeVar)
+			if !ok || fv.Name() != "index" {
+				continue
+			}
+			if bo, ok := st.Val.(*ssa.BinOp); ok {
+				if k, isK := constInt(bo.Y); isK && k == 1 {
+					switch bo.Op.String() {
+					case "-":
+						dec = true
+					case "+":
+						inc = true
+					}
+				}
+			}
+		}
+	}
+	// initial value in the search closure
+	startsAtLast, startsAtZero := false, true
+	for _, b := range search.Blocks {
+		for _, in := range b.Instrs {
+			st, ok := in.(*ssa.Store)
+			if !ok {
+				continue
+			}
+			if al, ok := st.Addr.(*ssa.Alloc); ok && al.Comment == "index" {
+				startsAtZero = false
+				s := vstr(st.Val)
+				if strings.HasPrefix(s, "(builtin.len(") && strings.HasSuffix(s, ".logKeys) - 1)") {
+					startsAtLast = true
+				}
+				if k, isK := constInt(st.Val); isK && k == 0 {
+					startsAtZero = true
+				}
+			}
+		}
+	}
+	descending := dec && !inc && startsAtLast
+	ascending := inc && !dec && startsAtZero
+	ok := (appendsAtEnd && descending) || (prepends && ascending)
+	c.Check(ok, rule, fname(getter)+":hops replayed from the start root towards the end root", c.P.Pos(getter.Pos()), "hop keys are collected end→start and replayed in the opposite order", "the hops of a multi-hop write log are replayed in the order they were discovered (end root first): a key written in both hops ends with the older value and the served log does not reproduce the end root")
 }
